@@ -104,13 +104,13 @@ CHECKS = {
   design="DESIGN.md §6 C17"),
  "C18": dict(
   category="model_checking",
-  text="RxFetch.tla defines what fetching a received packet may do: the chip's 256-byte buffer with address wrap-around, the packet length the chip defines (reported length, or the configured one with an implicit header), the SX126x command-status codes, and the allowed outcomes (success with exactly the packet bytes and an untouched tail, or an error; never a panic; success required when the packet fits and the status is clean). The emulated chip buffer holds an injective position pattern and the caller's buffer canaries (two runs), so the recorder logs a lossless run-length description of the caller's buffer; TLC checks every case: thorough = all 256 lengths x 256 offsets x buffer sizes {0,1,12,64,255,256} x header modes x 12 status bytes on RadioKind::get_rx_payload for SX1262, SX1276, SX1272 (exhaustive), plus a 16x16 grid through LoRa::complete_rx and LorawanRadio::rx_single; the LR1110 driver (responses in separate Stat1-prefixed transactions) is recorded the same way for explicit-header reception.",
+  text="RxFetch.tla defines what fetching a received packet may do: the chip's 256-byte buffer with address wrap-around, the packet length the chip defines (reported length, or the configured one with an implicit header), the SX126x command-status codes, and the allowed outcomes (success with exactly the packet bytes and an untouched tail, or an error; never a panic; success required when the packet fits and the status is clean). The emulated chip buffer holds an injective position pattern and the caller's buffer canaries (two runs), so the recorder logs a lossless run-length description of the caller's buffer; TLC checks every case: thorough = all 256 lengths x 256 offsets x buffer sizes {0,1,12,64,255,256} x header modes x 12 status bytes on RadioKind::get_rx_payload for SX1262, SX1276, SX1272 (exhaustive), plus a 16x16 grid through LoRa::complete_rx and LorawanRadio::rx_single; the LR1110 driver (responses in separate Stat1-prefixed transactions) is recorded the same way for explicit-header reception. The last clause ('the adapter hands the MAC exactly those bytes') is also checked on the MAC's own RadioBuffer: async devices built with a radio buffer of 64 / 128 / 33 bytes receive authentic downlinks of N-2..N bytes (RX1, RX2, Class C) and a 33-byte JoinAccept with CFList (`vh bufwalk`), and MacTrace.tla decides what each must do.",
   note="Trusted: RxFetch.tla (chip buffer semantics from the data sheets), TLC, the emulated chip memory. The indirect call paths are sampled on a grid in both tiers.",
   technique=TV + " (RxFetch.tla, WireTrace.tla); exhaustive on the direct call path in the thorough tier",
   design="DESIGN.md §6 C18"),
  "C14": dict(
   category="model_checking",
-  text="Exhaustive enumeration of API call sequences (quick: depth 2, thorough: depth 3, plus structured depth-4/5 histories around sleep/re-initialisation) over the property's call alphabet x interrupt outcomes, with a fault injected at EVERY bus event (SPI transfer, BUSY wait, DIO wait, reset, RF switch) of the last call and a dropped future at the droppable wait, on the real LoRa<Sx126x>, LoRa<Sx127x> and LoRa<Lr1110> over a scripted bus, and on all three again through the LoRaWAN radio adapter (LorawanRadio: tx / setup_rx / rx_single / rx_continuous / low_power, one level deeper). PhyTrace.tla holds an abstract SX126x, an abstract SX1276 and an abstract LR1110 that are stepped by decoding the raw SPI bytes actually sent, and checks the four clauses: wrong-mode calls refused without bus traffic, never commanded asleep without wake-up, everything reprogrammed after cold start before TX/RX/CAD starts, standby + driver knows after failure. Injected-fault violations of clause 4 are an open finding (S23), listed per call; timeouts and interrupt errors are held to clause 4 strictly. Design level and specification -> implementation: MCPhy.tla models the driver's bookkeeping next to the chip for all call sequences (clauses as invariants) and TLC generates one call sequence per transition of that model, each followed by a probe transmission, executed on the real SX1262, SX1276, SX1272 and LR1110 drivers. Open findings: S23 (per call) and S37 (tx() accepted straight after continuous_wave()).",
+  text="Exhaustive enumeration of API call sequences (quick: depth 2, thorough: depth 3, plus structured depth-4/5 histories around sleep/re-initialisation) over the property's call alphabet x interrupt outcomes, with a fault injected at EVERY bus event (SPI transfer, BUSY wait, DIO wait, reset, RF switch) of the last call and a dropped future at the droppable wait, on the real LoRa<Sx126x>, LoRa<Sx127x> and LoRa<Lr1110> over a scripted bus, and on all three again through the LoRaWAN radio adapter (LorawanRadio: tx / setup_rx / rx_single / rx_continuous / low_power, one level deeper). PhyTrace.tla holds an abstract SX126x, an abstract SX1276 and an abstract LR1110 that are stepped by decoding the raw SPI bytes actually sent, and checks the four clauses: wrong-mode calls refused without bus traffic, never commanded asleep without wake-up, everything reprogrammed after cold start before TX/RX/CAD starts, standby + driver knows after failure. Clause 4 is held strictly for time-outs, interrupt errors and for an injected fault at every bus event of every call (the former open finding S23 is repaired in /repo: every operation passes its result through standby_on_error); only a fault on the very command that restores standby, or a fault on top of an operation that had already timed out (two failures), is outside the single-fault quantifier - a driver that comes out believing standby while the chip is elsewhere is never excused. Design level and specification -> implementation: MCPhy.tla models the driver's bookkeeping next to the chip for all call sequences (clauses as invariants) and TLC generates one call sequence per transition of that model, each followed by a probe transmission, executed on the real SX1262, SX1276, SX1272 and LR1110 drivers. Open finding: S37 (tx() accepted straight after continuous_wave()).",
   note="Trusted: the abstract SX126x, SX1276 and LR1110 of PhyTrace.tla (datasheet-level, small). Covered: SX1262 (DC-DC, TCXO), SX1276 and SX1272 (TCXO, PA_BOOST) and LR1110 (DC-DC, TCXO, RF-switch DIOs, HP PA), directly and behind the LoRaWAN radio adapter. NOT covered by this check: SX1261 / STM32WL variants (they differ from the SX1262 in PA tables and the DIO2 switch option only), call sequences deeper than the stated bounds.",
   technique="explicit TLA+ chip model + clauses (PhyTrace.tla) checked with TLC on exhaustively enumerated call/outcome/fault sequences executed on the real driver; MCPhy.tla model checking and TLC-generated call sequences replayed into the implementation",
   design="DESIGN.md §6 C14"),
